@@ -99,7 +99,7 @@ def decisive(op, a):
     if op == "iid_to_bytes":
         return 0 <= a[0] < 16
     if op == "liid_to_bytes":
-        return 0 <= a[0] < 2 ** 24
+        return 0 <= a[0]          # C20_long_invoke_id_total_inverse / _out_of_range_refused cover every id
     if op in ("obis_to_bytes", "obis_dotted"):
         return all(0 <= x < 256 for x in a)
     if op == "obis_from_dotted":
